@@ -195,10 +195,23 @@ class Run:
                 ns2['__hash__'] = None if 'unhash' in tr else (lambda a: 7)
             if 'falsy' in tr:
                 ns2['__bool__'] = lambda a: False
+            plain_record = 'seq' in tr and kind == 'c' and not bases and not names and not kw and \
+                not any(cid in d[2] for d in self.decls)
+            if plain_record:
+                # a component that is itself a sequence (a namedtuple-style record, no handler: tuples cannot
+                # be referenced weakly): still ONE component
+                bs = (tuple,) + bs
+                ns2['__new__'] = lambda c: tuple.__new__(c, (7, 8))
             cls = type(f'K{cid}', bs, ns2)
-            cls = event_handler(*names, **kw)(cls)
+            if not plain_record:
+                cls = event_handler(*names, **kw)(cls)
             self.classes.append(cls)
             self.kinds.append(kind)
+        import abc
+        self.registered_abc = abc.ABCMeta('Registered', (), {})
+        for cls, kind in zip(self.classes, self.kinds):
+            if kind in ('c', 'ctrl'):
+                self.registered_abc.register(cls)       # every component class: a *virtual* subclass only
         for t, (cls, kind) in enumerate(zip(self.classes, self.kinds)):
             if kind in ('c', 'ctrl'):
                 setattr(self.CtrlRoot, f'cref_{t}', desper.ComponentReference(cls))
@@ -481,9 +494,13 @@ class Run:
         def proto_line(pe):
             # a query type that is no base class of anything (a runtime-checkable Protocol): the three
             # kinds of query must still tell one story
-            P = desper.EventHandler
-            return (f'{int(w.has_component(pe, P))} {int(w.get_component(pe, P) is not None)} '
-                    f'{int(any(x == pe for x, _ in w.get(P)))}')
+            # (also: ABCs with a subclass hook, and an ABC some component class was only *registered* with -
+            # neither makes a class a subclass for the walk over __subclasses__ that all queries share)
+            import collections.abc
+            return ' '.join(f'{int(w.has_component(pe, P))} {int(w.get_component(pe, P) is not None)} '
+                            f'{int(any(x == pe for x, _ in w.get(P)))}'
+                            for P in (desper.EventHandler, collections.abc.Hashable, collections.abc.Sized,
+                                      self.registered_abc))
         for e in self.ents:
             out.append(f'hasx {e} ' + q(lambda: proto_line(ent_py(e))))
         out.append('entities ' + q(lambda: ','.join(map(str, sorted(ent_code(e) for e in w.entities))) or '-'))
